@@ -78,11 +78,18 @@ class Timeout(RuntimeError):
     pass
 
 
+_LOOP = []
+
+
 def run_async(coro, limit=120):
+    """all scenarios of one check run on ONE event loop, as everything the tool does in one process does: state that the tool
+    keeps for the life of the process (connection pools, clients) must not meet a closed loop in the next scenario"""
     async def guarded():
         return await asyncio.wait_for(coro, limit)
+    if not _LOOP or _LOOP[0].is_closed():
+        _LOOP[:] = [asyncio.new_event_loop()]
     try:
-        return asyncio.run(guarded())
+        return _LOOP[0].run_until_complete(guarded())
     except asyncio.TimeoutError:
         raise Timeout(f"no result within {limit}s")
 
@@ -867,8 +874,71 @@ def run_e_one(chk, sseed):
         sb.destroy()
 
 
+def run_f_one(chk, sseed):
+    """two repositories of one process on one TLS host, one with `http2-disable`, one without, constructed in either order with
+    the same TLS settings: the connection of the one with http2-disable must not negotiate HTTP/2 (the server offers h2 and
+    http/1.1 by ALPN and records what was chosen), and its file must arrive over HTTP/1.1"""
+    rng = random.Random(sseed)
+    body = b"F" * rng.randint(100, 5000)
+
+    def behaviour(path, k, entry):
+        if path.endswith("/file"):
+            return dict(status=200, headers=[("Last-Modified", httpd.http_date(DATE))], body=body)
+        return dict(status=404, body=b"")
+
+    tls = dict(cert=os.path.join(CERTS, "server.pem"), key=os.path.join(CERTS, "server.key"), client_ca=os.path.join(CERTS, "ca.pem"),
+               require_client=False, alpn=["h2", "http/1.1"])
+    srv = httpd.Server(behaviour, tls=tls)
+    root = fsutil.workdir("c18f")
+    first_off = rng.random() < 0.4
+    use_allowed_first = rng.random() < 0.5
+    replay = {"part": "F", "scenario_seed": sseed, "http2_disabled_repository_constructed_first": first_off}
+    try:
+        async def main():
+            mk = lambda name, off: HTTPDownloader(settings=make_settings(f"https://localhost:{srv.port}/{name}", root,
+                                                  verify=os.path.join(CERTS, "ca.pem"), http2_disable=off))
+            ds = {}
+            for name in (["off", "on"] if first_off else ["on", "off"]):
+                ds[name] = mk(name, name == "off")
+            out = {}
+            if use_allowed_first:
+                # the repository that may use HTTP/2 talks first: the server hangs up on h2 (it records the choice only)
+                try:
+                    out["on"] = await asyncio.wait_for(observe(ds["on"], "x/file"), 5)
+                except Exception as ex:  # noqa: BLE001
+                    out["on"] = type(ex).__name__
+            n_before = len([e for e in srv.log if e.get("event") == "alpn-h2"])
+            try:
+                out["off"] = await asyncio.wait_for(observe(ds["off"], "x/file"), 10)
+            except Exception as ex:  # noqa: BLE001
+                out["off"] = type(ex).__name__
+            out["h2_by_off"] = len([e for e in srv.log if e.get("event") == "alpn-h2"]) - n_before
+            for d in ds.values():
+                try:
+                    await d._httpx.aclose()
+                except Exception:  # noqa: BLE001
+                    pass
+            return out
+        out = run_async(main(), 60)
+        reqs = [e for e in srv.log if e.get("event") == "request" and e["target"].startswith("/off/")]
+        if out["h2_by_off"] or any(e.get("alpn") == "h2" for e in reqs):
+            chk.violation("http2-setting-ignored:several-repositories", replay,
+                          f"the repository with http2-disable negotiated HTTP/2 ({out['h2_by_off']} h2 connections) although only the other one may use it")
+        elif not (isinstance(out["off"], dict) and out["off"].get("body") == body and reqs):
+            chk.violation("http2-disabled-repository-not-served", replay, f"the repository with http2-disable did not get its file over HTTP/1.1: {str(out['off'])[:200]}")
+        chk.evaluated(("F", first_off, use_allowed_first), sample={"part": "F", "first_off": first_off, "h2_allowed_talks_first": use_allowed_first,
+                                                                   "requests_of_disabled": len(reqs)})
+        chk.count("F_runs")
+        chk.traces += 1
+    finally:
+        srv.stop()
+        fsutil.rmtree(root)
+
+
 def run(chk, tier, rng):
     quick = tier == "quick"
+    for i in range(6 if quick else 60):
+        run_f_one(chk, f"C18F-{chk.seed}-{i}")
     for i in range(6 if quick else 100):
         run_e_one(chk, f"C18E-{chk.seed}-{i}")
     part_a(chk, rng, 60 if quick else 1500)
